@@ -277,8 +277,10 @@ func (v *FnVC) applyContract(fr *frame, st *State, con *Contract, callee *ssa.Fu
 	}
 	for _, c := range con.Ensures {
 		env := &specEnv{v: v, fr: sub, st: st, old: pre, result: res, resType: callee.Signature.Results()}
-		t := env.evalBool(c.Expr)
-		v.sc.Assert(Implies(reach, t))
+		// a clause that mentions the callee's locals cannot be stated at a call site: it is simply not assumed
+		if t, ok := tryEvalBool(env, c.Expr); ok {
+			v.sc.Assert(Implies(reach, t))
+		}
 	}
 	return res
 }
@@ -570,4 +572,19 @@ func (v *FnVC) packLen(x ssa.Value) int {
 		return -1
 	}
 	return int(at.Len())
+}
+
+func tryEvalBool(env *specEnv, e SExpr) (t Term, ok bool) {
+	mark := len(env.v.sc.lines)
+	defer func() {
+		if r := recover(); r != nil {
+			if _, isU := r.(unsupportedErr); isU {
+				env.v.sc.lines = env.v.sc.lines[:mark]
+				ok = false
+				return
+			}
+			panic(r)
+		}
+	}()
+	return env.evalBool(e), true
 }
